@@ -679,7 +679,11 @@ class LiteralUnmarshaller(AbstractUnmarshaller[LiteralT], tp.Generic[LiteralT]):
     def __call__(self, val: tp.Any) -> LiteralT:
         if val in self.values:
             return val
-        decoded = serdes.load(val)
+        # A text member is matched as text in every carrier, before it may be re-typed.
+        text = serdes.decode(val)
+        if text in self.values:
+            return text
+        decoded = serdes.load(text)
         if decoded in self.values:
             return decoded  # type: ignore[return-value]
 
